@@ -8,7 +8,9 @@ Event alphabet (the same as model/Rpc.v):
 
     ["recv", bytes]            reader.feed_data(bytes)
     ["complete", id, outcome]  release the oldest started handler invocation of call id `id`
-                               outcome: "ok" | "usage" | "internal" | "unpicklable"
+                               outcome: "ok" | "usage" | "usage2" | "internal" | "unpicklable" | "cancel_self" |
+                               "await_cancelled" | "base_exc" (the last three: a CancelledError / BaseException
+                               raised by the handler itself; in the model ORaise false) | "badstr" (impl oracle only)
     ["sent"]                   let one pending writer.drain() finish (one reply leaves)
     ["sentfail"]               let one pending writer.drain() fail with ConnectionResetError
     ["peergone"]               reader.feed_eof()
@@ -55,6 +57,17 @@ class Unpicklable:
         raise TypeError("cannot pickle this")
 
 
+class OddBaseException(BaseException):
+    """Neither an Exception nor one of the BaseExceptions that asyncio lets through a task."""
+
+
+class BadStrError(Exception):
+    """An exception that cannot be rendered: str(exc) raises."""
+
+    def __str__(self):
+        raise ValueError("this exception has no str()")
+
+
 class Handler:
     """RPC handler whose exposed coroutine blocks on a gate that the driver releases."""
 
@@ -75,6 +88,12 @@ class Handler:
             self.cancelled.append(tag)
             raise
         self.finished.append(tag)
+        if outcome == "await_cancelled":
+            # what amend_step sees when the hash job it awaits was cancelled by somebody else: a CancelledError
+            # that is not a cancellation of this task, while the connection stays up
+            fut = asyncio.get_running_loop().create_future()
+            fut.cancel()
+            await fut
         return _produce(outcome, tag)
 
     @allow_rpc
@@ -116,6 +135,12 @@ def _produce(outcome, tag):
         raise RuntimeError(f"bug {tag}")
     if outcome == "unpicklable":
         return Unpicklable()
+    if outcome == "cancel_self":
+        raise asyncio.CancelledError()
+    if outcome == "base_exc":
+        raise OddBaseException(f"odd {tag}")
+    if outcome == "badstr":
+        raise BadStrError()
     raise AssertionError(outcome)
 
 
